@@ -18,7 +18,7 @@
 //	    is the one of the MOMENT of failure is checked separately: anomaly "store".)
 //	(c) the extracted model (ocaml/c05/run.ml: ErrCont.eval_session), by the check driver.
 //
-// Per case line:  ID <TAB> failat=K T1 ;; T2 ;; .. <TAB> obs1 ;; obs2 ;; ..|T:trace <TAB> anomalies <TAB> sources <TAB> roles
+// Per case line:  ID <TAB> failat=K T1 ;; T2 ;; .. <TAB> obs1 ;; obs2 ;; ..|T:trace <TAB> anomalies <TAB> sources <TAB> roles <TAB> entry point
 // anomalies (model-free, each is a violation of the property text):
 //
 //	swallowed  failk fired but the text's outcome is not that error
@@ -46,6 +46,7 @@ const budget = 6000
 const capK = 30
 
 type session struct {
+	LoadRun bool // entry point of every text: LoadString + Run instead of EvalString
 	P     *Program
 	Texts []Text
 	Names []string
@@ -64,6 +65,7 @@ type run struct {
 
 func runSession(s *session, k int, kind FKind) run {
 	it := NewInterp(budget, k, kind, s.Names)
+	it.LoadRun = s.LoadRun
 	env := it.Env
 	r := run{fire: -1}
 	for i, t := range s.Texts {
@@ -150,6 +152,31 @@ func anomalies(s *session, kind FKind, a, b run) []string {
 	return out
 }
 
+// cleanAnomalies: no injected failure, but a rejected text is a failed evaluation too: the session
+// is compared with an interpreter that never saw it (twin run with k = 0 skips rejected texts).
+func cleanAnomalies(s *session, clean, tw run) []string {
+	var cleanAnoms []string
+	for i := range clean.obs {
+		if i < len(tw.obs) && (clean.obs[i] == "BUDGET" || tw.obs[i] == "BUDGET") {
+			break
+		}
+		if i < len(tw.obs) && tw.obs[i] != "SKIP" && clean.obs[i] != tw.obs[i] {
+			cleanAnoms = append(cleanAnoms, fmt.Sprintf("twin kind=rejected-text text=%d impl %s twin %s src %s", i, clean.obs[i], tw.obs[i], esc(s.Texts[i].Src)))
+			break
+		}
+	}
+	for i, t := range s.Texts {
+		if t.Role == "interlude" && i < len(clean.obs) {
+			if strings.HasPrefix(clean.obs[i], "V:") {
+				cleanAnoms = append(cleanAnoms, fmt.Sprintf("swallowed kind=rejected-text text=%d outcome %s for a text that must be rejected: %s", i, clean.obs[i], esc(t.Src)))
+			} else if !clean.rest[i].AtRest() && (i == 0 || clean.rest[i-1].AtRest()) {
+				cleanAnoms = append(cleanAnoms, fmt.Sprintf("unrest kind=rejected-text text=%d %s", i, clean.rest[i]))
+			}
+		}
+	}
+	return cleanAnoms
+}
+
 // catchAnomalies: the host handled the nested failure, so the session must equal the clean run.
 func catchAnomalies(s *session, kind FKind, a, clean run) []string {
 	var out []string
@@ -195,6 +222,13 @@ func (s *session) roles() string {
 	return string(b)
 }
 
+func (s *session) entry() string {
+	if s.LoadRun {
+		return "LoadString+Run"
+	}
+	return "EvalString"
+}
+
 func (s *session) sources() string {
 	parts := make([]string, len(s.Texts))
 	for i, t := range s.Texts {
@@ -232,6 +266,12 @@ func build(p *Program, rng *lib.Rng, tags []string) *session {
 		s.Tags = append(s.Tags, fmt.Sprintf("interlude:%d", i))
 	}
 	s.Texts = append(s.Texts, battery(s.Names)...)
+	if rng.Intn(3) == 0 {
+		s.LoadRun = true
+		s.Tags = append(s.Tags, "entry:LoadString+Run")
+	} else {
+		s.Tags = append(s.Tags, "entry:EvalString")
+	}
 	return s
 }
 
@@ -248,24 +288,7 @@ func enumerate(s *session, kinds []FKind, emit func(k int, a run, anoms []string
 		hasInterlude = hasInterlude || t.Role == "interlude"
 	}
 	if hasInterlude {
-		// no injected failure, but the rejected text is a failed evaluation too: compare with an
-		// interpreter that never saw it
-		tw := runSession(s, 0, KTwin)
-		for i := range clean.obs {
-			if i < len(tw.obs) && tw.obs[i] != "SKIP" && clean.obs[i] != tw.obs[i] {
-				cleanAnoms = append(cleanAnoms, fmt.Sprintf("twin kind=rejected-text text=%d impl %s twin %s src %s", i, clean.obs[i], tw.obs[i], esc(s.Texts[i].Src)))
-				break
-			}
-		}
-		for i, t := range s.Texts {
-			if t.Role == "interlude" && i < len(clean.obs) {
-				if strings.HasPrefix(clean.obs[i], "V:") {
-					cleanAnoms = append(cleanAnoms, fmt.Sprintf("swallowed kind=rejected-text text=%d outcome %s for a text that must be rejected: %s", i, clean.obs[i], esc(t.Src)))
-				} else if !clean.rest[i].AtRest() && (i == 0 || clean.rest[i-1].AtRest()) {
-					cleanAnoms = append(cleanAnoms, fmt.Sprintf("unrest kind=rejected-text text=%d %s", i, clean.rest[i]))
-				}
-			}
-		}
+		cleanAnoms = cleanAnomalies(s, clean, runSession(s, 0, KTwin))
 	}
 	emit(0, clean, cleanAnoms)
 	n = clean.calls
@@ -335,6 +358,8 @@ func runProgram(seed uint64, i int, shrunkClasses map[string]bool) []caseRec {
 			s.Texts = append(s.Texts, Text{Src: interludes[j], Prefix: noopErr, Role: "interlude"})
 		}
 		s.Texts = append(s.Texts, battery(s.Names)...)
+		s.LoadRun = rng.Intn(3) == 0
+		s.Tags = append(s.Tags, "entry:"+s.entry())
 		return enumRecs(s, i, shrunkClasses, false)
 	case i%3 == 0:
 		var fam string
@@ -382,7 +407,7 @@ func enumRecs(s *session, i int, shrunkClasses map[string]bool, shrink bool) []c
 			ctags = append(ctags, "anomaly:"+classOf(an))
 		}
 		recs = append(recs, caseRec{Prog: i, K: k, Input: s.input(k), Impl: strings.Join(r.obs, " ;; ") + "|T:" + r.trace,
-			Anoms: esc(strings.Join(anoms, " || ")), Sources: s.sources() + "\t" + s.roles(), Tags: ctags, Nontriv: p.Size() >= 3 || !shrink})
+			Anoms: esc(strings.Join(anoms, " || ")), Sources: s.sources() + "\t" + s.roles() + "\t" + s.entry(), Tags: ctags, Nontriv: p.Size() >= 3 || !shrink})
 		if shrink && len(anoms) > 0 && !shrunkClasses[classOf(anoms[0])] {
 			shrunkClasses[classOf(anoms[0])] = true
 			if rec := shrunkCase(s, anoms[0], allKinds); rec != nil {
@@ -398,6 +423,7 @@ func enumRecs(s *session, i int, shrunkClasses map[string]bool, shrink bool) []c
 
 func main() {
 	a := lib.ParseArgs()
+	writeMidTextFile()
 	if a.Replay != "" {
 		replay(a.Replay)
 		return
@@ -538,7 +564,7 @@ func main() {
 func shrunkCase(s *session, anom string, kinds []FKind) *caseRec {
 	class := classOf(anom)
 	rebuild := func(p *Program) *session {
-		s2 := &session{P: p, Names: s.Names, Tags: []string{"shrunk"}}
+		s2 := &session{P: p, Names: s.Names, Tags: []string{"shrunk"}, LoadRun: s.LoadRun}
 		s2.Texts = append(s2.Texts, progText(p, Style{NoTCO: true}, "prog"))
 		for _, t := range s.Texts {
 			if t.Role == "interlude" {
@@ -578,7 +604,7 @@ func shrunkCase(s *session, anom string, kinds []FKind) *caseRec {
 	}
 	s2 := rebuild(small)
 	return &caseRec{Input: s2.input(h.k), Impl: strings.Join(h.r.obs, " ;; ") + "|T:" + h.r.trace,
-		Anoms: esc(strings.Join(h.anom, " || ")), Sources: s2.sources() + "\t" + s2.roles(), Tags: []string{"shrunk", "anomaly:" + class}}
+		Anoms: esc(strings.Join(h.anom, " || ")), Sources: s2.sources() + "\t" + s2.roles() + "\t" + s2.entry(), Tags: []string{"shrunk", "anomaly:" + class}}
 }
 
 // replay re-runs a recorded witness: {"failat": k, "texts": [source, ..]} and prints every kind's observables.
@@ -587,6 +613,7 @@ func replay(path string) {
 		Failat int      `json:"failat"`
 		Texts  []string `json:"texts"`
 		Names  []string `json:"names"`
+		Load   bool     `json:"load_run"`
 	}
 	b, err := os.ReadFile(path)
 	if err != nil {
@@ -600,15 +627,30 @@ func replay(path string) {
 	if len(w.Names) == 0 {
 		w.Names = []string{"x", "y", "f"}
 	}
-	s := &session{Names: w.Names}
+	s := &session{Names: w.Names, LoadRun: w.Load}
 	for _, t := range w.Texts {
 		role := "prog"
-		if strings.HasPrefix(t, "(def zz1 5)") {
+		if isRejectedText(t) {
 			role = "interlude"
 		}
 		s.Texts = append(s.Texts, Text{Src: t, Role: role})
 	}
 	bad := 0
+	if w.Failat == 0 {
+		clean := runSession(s, 0, KScript)
+		tw := runSession(s, 0, KTwin)
+		fmt.Printf("entry point   : %s\n", s.entry())
+		fmt.Printf("twin          : %s\n", strings.Join(tw.obs, " ;; "))
+		fmt.Printf("implementation: %s\n", strings.Join(clean.obs, " ;; "))
+		for _, an := range cleanAnomalies(s, clean, tw) {
+			fmt.Println("  ANOMALY", an)
+			bad++
+		}
+		if bad > 0 {
+			os.Exit(1)
+		}
+		return
+	}
 	tw := runSession(s, w.Failat, KTwin)
 	fmt.Printf("twin          : %s\n", strings.Join(tw.obs, " ;; "))
 	for k := 0; k < nKinds; k++ {
